@@ -560,3 +560,15 @@ func (f *FuncCFG) Returns() []*ast.ReturnStmt {
 	sort.Slice(out, func(i, j int) bool { return out[i].Pos() < out[j].Pos() })
 	return out
 }
+
+// AtEnd returns the facts that hold on every path at the end of block b (nil if unreachable).
+func (r *FactResult) AtEnd(b *cfg.Block) factSet {
+	if r.in[b.Index] == nil {
+		return nil
+	}
+	s := r.in[b.Index].clone()
+	for _, n := range b.Nodes {
+		s = r.f.transfer(r.spec, s, n)
+	}
+	return s
+}
